@@ -19,6 +19,7 @@ import (
 	"errors"
 	"fmt"
 	"net"
+	"os"
 	"strings"
 	"sync"
 	"time"
@@ -39,6 +40,7 @@ type pconn struct {
 	writes  int
 	tags    int
 	onWrite func(p []byte)
+	wd      time.Time
 }
 
 func (c *pconn) Read(p []byte) (int, error) {
@@ -48,8 +50,27 @@ func (c *pconn) Read(p []byte) (int, error) {
 	return c.Conn.Read(p)
 }
 
+// the probe connection honours the write deadline like a real transport
+func (c *pconn) SetWriteDeadline(t time.Time) error {
+	c.mu.Lock()
+	c.wd = t
+	c.mu.Unlock()
+	return c.Conn.SetWriteDeadline(t)
+}
+
+func (c *pconn) SetDeadline(t time.Time) error {
+	c.mu.Lock()
+	c.wd = t
+	c.mu.Unlock()
+	return c.Conn.SetDeadline(t)
+}
+
 func (c *pconn) Write(p []byte) (int, error) {
 	c.mu.Lock()
+	if !c.wd.IsZero() && time.Until(c.wd) <= 0 {
+		c.mu.Unlock()
+		return 0, os.ErrDeadlineExceeded
+	}
 	c.writes++
 	if bytes.Contains(p, []byte(closeTag)) {
 		c.tags++
@@ -78,7 +99,9 @@ func newProbeSess() (*psess, error) {
 	c1, c2 := net.Pipe()
 	pc := &pconn{Conn: c1}
 	go c2.Write([]byte(header))
-	s, err := xmpp.NewSession(context.Background(), remoteJID, localJID, pc, 0, negotiator)
+	ctx, cancel := context.WithCancel(context.Background())
+	s, err := xmpp.NewSession(ctx, remoteJID, localJID, pc, 0, negotiator)
+	cancel() // the negotiation context is released: it must not matter afterwards
 	if err != nil {
 		return nil, err
 	}
@@ -99,7 +122,19 @@ func (p *psess) serveUntil(peerBytes string, handlerErr error, deadline bool) er
 		}
 	}
 	if peerBytes != "" {
-		if !common.WithTimeout(3*time.Second, func() { p.peer.Write([]byte(peerBytes)) }) {
+		written := make(chan struct{})
+		go func() { p.peer.Write([]byte(peerBytes)); close(written) }()
+		select {
+		case <-written:
+		case <-ret:
+			// Serve has returned: after it read what the peer sent (fine), or without reading it
+			select {
+			case <-written:
+				return nil
+			case <-time.After(50 * time.Millisecond):
+				return fmt.Errorf("Serve returned without reading what the peer sent")
+			}
+		case <-time.After(3 * time.Second):
 			return fmt.Errorf("Serve did not read what the peer sent")
 		}
 	}
@@ -377,6 +412,9 @@ func probeFacts(sb *strings.Builder) {
 	var l []string
 	for _, w := range closeWays {
 		seen, bit, rd, lk, tags := closeWriteCell(w)
+		if tags < 0 {
+			tags = 99 // the path could not be driven (a Nat in the generated table)
+		}
 		l = append(l, fmt.Sprintf("(%q, [%v, %v, %v, %v], %d)", w, seen, bit, rd, lk, tags))
 	}
 	fmt.Fprintf(sb, "def closeWriteProbe : Option (List (String × List Bool × Nat)) := some [\n  %s]\n", strings.Join(l, ",\n  "))
